@@ -247,7 +247,7 @@ def gen_hexital(rng, size, ha_ok=False, life_ok=False, programs=True, enc=None):
     for _ in range(rng.randint(1, 4)):
         sp = specs.gen_amorph_spec(rng) if rng.random() < 0.15 else specs.gen_spec(rng)
         if rng.random() < 0.4:
-            mult = rng.choice([2, 3, 5])
+            mult = rng.choice([2, 3, 5, 1] if htf else [2, 3, 5])   # 1: the Hexital's own timeframe named explicitly by a member
             unit, k = (htf[0], int(htf[1:])) if htf else ("T", rng.choice([1, 5]))
             sp["tf"] = f"{unit}{k * mult}"
             if rng.random() < 0.25:
